@@ -14,6 +14,8 @@ def _san_files(pid):
                 p = part[len('log_path='):] + '.%d' % pid
                 if p not in out:
                     out.append(p)
+    if os.environ.get('VERIF_MEMCHECK_LOG'):
+        out.append(os.environ['VERIF_MEMCHECK_LOG'] + '.%d' % pid)
     return out
 
 
